@@ -5,8 +5,9 @@ import json, re, glob, os
 here=os.path.dirname(os.path.abspath(__file__))
 path=os.path.join(here,'seeded','DETECTION.json')
 det=json.load(open(path)) if os.path.exists(path) else {}
-for f in sorted(glob.glob('/tmp/seedlogs/matrix-*.txt')):
-    seed=os.path.basename(f)[7:-4]
+for f in sorted(glob.glob('/tmp/seedlogs/matrix-*.txt'))+sorted(glob.glob('/tmp/seedlogs/regress-*.txt')):
+    b=os.path.basename(f)
+    seed=b[7:-4] if b.startswith('matrix-') else 'regress:'+b[8:-4]   # regress:<fix commit> = the reverse of that fix
     txt=open(f,errors='replace').read()
     m=re.search(r'^(\S+) (\S+) (quick|thorough): exit=(\d+) violations=(\d+)',txt,re.M)
     if not m:
